@@ -28,11 +28,11 @@ Lemma handle_cap_kinds c m ns e :
   cfg_sasl c = Some m ->
   Sasl.handle_cap c ns e =
   match classify (ev_params e) with
-  | KDel => (mkSt (st_tmp ns)
+  | KDel => (mkSt (tmp_after_del ns (ev_params e))
                   (fold_left (fun en k => adel k en)
                              (akeys (parse_cap (last_or_empty (ev_params e)))) (st_enabled ns))
                   (st_sts ns), [])
-  | KNak => (ns, [Sasl.Write cap_end])
+  | KNak => (st_after_nak ns, [Sasl.Write cap_end])
   | KFinal =>
       let tmp1 := tmp_after_ls (cap_cfg_of c) 0 ns (ev_params e) in
       (mkSt tmp1 (st_enabled ns) (st_sts ns),
